@@ -57,26 +57,27 @@ theorem get_store_other (c : Cache) (e : Entry) (id : Str) (h : id ≠ e.id) : (
 
 theorem get_invalidate_self (c : Cache) (id : Str) : (c.invalidate id).get id = none := by
   unfold Cache.invalidate
-  cases h : c.get id with
-  | none => simpa using h
-  | some e => simp only [Cache.get]; exact lookup_filter_self _ _
+  simp only [Cache.get]; exact lookup_filter_self _ _
 
 theorem get_invalidate_other (c : Cache) (id id' : Str) (h : id' ≠ id) : (c.invalidate id).get id' = c.get id' := by
   unfold Cache.invalidate
-  cases hg : c.get id with
-  | none => rfl
-  | some e => simp only [Cache.get]; exact lookup_filter_ne _ _ _ h
+  simp only [Cache.get]; exact lookup_filter_ne _ _ _ h
 
 /-- after an invalidation no command route leads to the session any more -/
 theorem invalidate_no_routes (c : Cache) (id : Str) (h : (c.get id).isSome) :
     ∀ p ∈ (c.invalidate id).cmdMap, p.2 ≠ id := by
   unfold Cache.invalidate
-  cases hg : c.get id with
-  | none => simp [hg] at h
-  | some e =>
-    intro p hp
-    simp only [List.mem_filter] at hp
-    simpa using hp.2
+  intro p hp
+  simp only [List.mem_filter] at hp
+  simpa using hp.2
+
+/-- … whether or not an entry was still filed under the identifier (fix D24) -/
+theorem invalidate_no_routes' (c : Cache) (id : Str) :
+    ∀ p ∈ (c.invalidate id).cmdMap, p.2 ≠ id := by
+  unfold Cache.invalidate
+  intro p hp
+  simp only [List.mem_filter] at hp
+  simpa using hp.2
 
 theorem lookupByCommand_id (c : Cache) (now : Nat) (tag addr cmd : Str) (e : Entry)
     (h : c.lookupByCommand now tag addr cmd = some e) :
